@@ -51,6 +51,10 @@ class InstanceMethodField(Field, InstanceMethodFieldMixin):
 
         return wrapper
 
+    def __getval__(self, cfg: Config) -> Callable:
+        # the bound method lives on the configuration object itself, not in its data
+        return cfg.__dict__[self._key]
+
     def validate(self, cfg: Config, value: Any) -> Any:
         return value
 
